@@ -398,7 +398,9 @@ def check_case(case) -> CaseResult:
                     m.actors[tgt]["gsys"] = None
         # deliver due delayed sends
         stale_target = False
-        for sid, (due, tgt, seq, gen) in list(m.pending.items()):
+        # (in order of their deadlines, not of their scheduling: two sends coming due within one
+        #  ADV are delivered earliest-deadline first; equal deadlines keep the scheduling order)
+        for sid, (due, tgt, seq, gen) in sorted(m.pending.items(), key=lambda kv: kv[1][0]):
             if due <= m.now:
                 if m.actors[tgt]["alive"] and m.actors[tgt]["gen"] != gen:
                     # the addressed actor was stopped and its id re-used before the delay ran out:
